@@ -953,6 +953,33 @@ def energies_per_frame(ctx, rid, what=""):
         raise AnalysisError(f"{rid}: no energy list filled inside an in-process engine loop found")
 
 
+def direction_flag_set(ctx, rid, what=""):
+    """EngineBase.propagate tells the system which way the coming propagation runs before it starts:
+    `system.vel_rev = reverse` dominates the call of _propagate_from. calculate_order orients the
+    velocities by the *system's* flag (not by the snapshot's), so without the store every frame of a
+    backward propagation gets the order parameter of the forward-pointing velocities."""
+    f = ctx.tree.func(ENGBASE, "EngineBase.propagate")
+    fl = flow_of(f)
+    cfg = fl.cfg
+    params = [a.arg for a in f.args.args]
+    calls = [c for c in walk_local(f) if isinstance(c, ast.Call) and last_name(c) == "_propagate_from"]
+    if not calls:
+        raise AnalysisError(f"{rid}: EngineBase.propagate does not call _propagate_from")
+    for c in calls:
+        rev = kwarg(c, "reverse", 5)
+        sysarg = kwarg(c, "system", 2)
+        if rev is None or sysarg is None or not isinstance(sysarg, ast.Name):
+            raise AnalysisError(f"{rid}: cannot read the system / reverse arguments of _propagate_from")
+        stores = [st for st in walk_local(f) if isinstance(st, ast.Assign) and any(isinstance(t, ast.Attribute) and t.attr == "vel_rev" and isinstance(t.value, ast.Name) and t.value.id == sysarg.id for t in st.targets)]
+        good = [st for st in stores if ast.unparse(st.value) == ast.unparse(rev) and cfg.dominates(cfg.node_of(st), cfg.node_of(c))]
+        later = [st for st in stores if st not in good and cfg.reaches(cfg.node_of(st), cfg.node_of(c))]
+        if good and not [st for st in later if any(cfg.reaches(cfg.node_of(g), cfg.node_of(st)) for g in good)]:
+            ctx.ok(rid, c, f"propagate: `{short(good[0], 40)}` dominates the propagation")
+        else:
+            ctx.bad(rid, c, f"EngineBase.propagate starts _propagate_from without having set `{sysarg.id}.vel_rev` to the direction of the propagation (`{short(rev, 20)}`): calculate_order orients the velocities by the system's flag, so in one of the two directions every frame's order parameter is computed with the velocities pointing the wrong way - interface tests run on values that are not the frames' own{what}",
+                    construct="propagate: direction flag not set before _propagate_from")
+
+
 def r125(ctx, m, cname, f, info):
     rid = "R-12.5"
     fl = flow_of(f)
@@ -1596,6 +1623,12 @@ def run(ctx):
     ctx.rule("R-12.7", "every sleeping wait loop observes the external process", floor=6)
     ctx.rule("R-12.8", "frames handed to the engines by the on-the-fly readers do not share arrays (a frame's box and coordinates are its own)", floor=3)
     ctx.rule("R-12.15", "the configuration an engine starts from after a velocity reversal is the phase point itself: _reverse_velocities writes positions, box and identities exactly as read (shared with C19 R-19.5)", floor=5)
+    ctx.rule("R-12.27", "the system carries the direction of the coming propagation: EngineBase.propagate stores system.vel_rev = reverse on every path to _propagate_from", floor=1)
+    ctx.attempt(direction_flag_set, ctx, "R-12.27")
+    ctx.rule("R-12.26", "the box handed to the order parameter for every TRR frame (and written into the next shooting point) is the frame's box: the flattened box matrix has the element order of the g96 BOX record (shared with C19 R-19.6)", floor=1)
+    from . import c19 as _c19p
+    from .shared import RuleProxy as _RP12p
+    ctx.attempt(_c19p.r196, _RP12p(ctx, "R-12.26", " - the order stored for a frame is then not the one of the frame's own (triclinic) box and the path stops at the wrong frame"))
     ctx.rule("R-12.25", "the order stored for a frame of a backward propagation is the order of that frame: calculate_order negates the velocities it finally uses under vel_rev, whether handed in or re-read (shared with C20 R-20.5)", floor=1)
     from . import c20 as _c20o
     ctx.attempt(_c20o.r205, ctx, "R-12.25")
@@ -1664,6 +1697,8 @@ def run(ctx):
 
 
 VARIANTS = [
+    B("c12-direction-flag-not-set-before-propagation", ENGBASE, "        system.vel_rev = reverse\n        # Propagate from this point:", "        # Propagate from this point:", "R-12.27", control=True, why="seeded C09_p"),
+    B("c12-box-list-yz-zy-exchanged", ENGPARTS, "            matrix[1, 2],\n            matrix[2, 0],\n            matrix[2, 1],\n", "            matrix[2, 1],\n            matrix[2, 0],\n            matrix[1, 2],\n", "R-12.26", control=True, why="seeded C12_p"),
     B("c12-direction-applied-to-reread-velocities-only", ENGBASE, "            vel = out[1]\n", "            vel = out[1] * -1.0 if system.vel_rev else out[1]\n", "R-12.25", control=True, also=[(ENGBASE, "            system.vel = vel * -1.0 if system.vel_rev else vel", "            system.vel = vel")], why="seeded C12_o"),
     B("c12-turtle-frames-at-the-end-of-each-block", TURTLE, "            if (i) % (self.subcycles) == 0:", "            if (i + 1) % (self.subcycles) == 0:", "R-12.23", control=True, why="seeded C09_n"),
     B("c12-ase-frames-counted-from-one", ASE, "        for i in range(self.subcycles * path.maxlen):", "        for i in range(1, self.subcycles * path.maxlen + 1):", "R-12.23"),
